@@ -127,6 +127,11 @@ class Facts:
                 d = dotted(cs.call.func) or ""
                 if d in ("np.transpose", "numpy.transpose") and len(cs.call.args) >= 2:
                     key = f"np.transpose(_, {self.scan.c.text(cs.call.args[1])})"
+                elif d in ("np.moveaxis", "numpy.moveaxis") and len(cs.call.args) == 3:
+                    # numpy validates source and destination like a permutation; the one that is not 0..n-1 is the operand
+                    cand = [a for a in cs.call.args[1:] if "arange" not in ast.unparse(a) and "range(" not in ast.unparse(fi.resolve(a))]
+                    if cand:
+                        key = f"np.transpose(_, {self.scan.c.text(cand[0])})"
                 elif isinstance(cs.call.func, ast.Attribute) and cs.call.func.attr == "transpose" and len(cs.call.args) == 1 \
                         and not d.startswith(("np.", "numpy.")) and not isinstance(cs.call.args[0], ast.Constant):
                     key = f"np.transpose(_, {self.scan.c.text(cs.call.args[0])})"       # x.transpose(perm): the method form validates alike
@@ -338,6 +343,22 @@ def check(prog: Program, res: Result, tier: str) -> None:
                         if not extra:
                             best = ("OK", r, "matched by message and structure")
                             break
+            if best is None or best[0] != "OK":
+                # the reviewed guard sat behind reviewed early exits (`if A and B: return ..` then `raise`): it rejects want & not(A and B).
+                # Written the other way round (`if not A or not B: raise`) there is one raise per way of missing the exit: every such case
+                # must be covered by some raise
+                exit_sets = [x for x in (_parse(a[len("exit when "):]) for a in allowed if a.startswith("exit when ")) if x and G._compatible(x, want)]
+                if 1 <= len(exit_sets) <= 2 and all(len(x) <= 4 for x in exit_sets):
+                    import itertools as _it
+                    cases = []
+                    for choice in _it.product(*[sorted(x - want) for x in exit_sets]):
+                        d = frozenset(want | {neg(a) for a in choice})
+                        if G._consistent(d):
+                            cases.append(G.simplify(d))
+                    if cases and all(any(subsumed(r.conds, d, f, r.order, allowed) and not relevant_extra(r.exits_before, allowed, d)
+                                         for r in list(f.raises) + list(f.delegated())) for d in cases):
+                        first = next(r for r in f.raises + f.delegated() if subsumed(r.conds, cases[0], f, r.order, allowed))
+                        best = ("OK", first, f"covered case by case ({len(cases)} ways of missing the reviewed exit)")
             where = prog.loc(f.fi)
             if best is None:
                 res.bad("GD-raise", fn, desc, where,
